@@ -13,6 +13,7 @@ from . import catalog, seams
 from .tensors import (DT, DTNAME, compare, make_tensor, max_abs, snap,
                       snap_digest)
 from .world import (CONVERT_TARGET, apply_convert, call_with_mode, do_restart, load_other,
+                    put_tensor_state, tensor_state,
                     func_args, module_state_snap, run_func, select_backward,
                     thaw_pyramid)
 
@@ -329,8 +330,7 @@ def check_backward(w, rec, st, how):
                     L = fresh(cur)
                     oc3, mod3 = _run(lambda: build_direct(L, fwd["recipe"], cur))
                     if oc3 == "ok":
-                        oc3, _ = _run(lambda: mod3.load_state_dict(
-                            {k: v.clone() for k, v in fwd["state"].items()}))
+                        oc3, _ = _run(lambda: put_tensor_state(mod3, fwd["state"]))
                     if oc3 == "ok":
                         oc3, val3, leaves3 = ref_apply(L, fwd, mod3)
                     if oc3 == "ok":
@@ -372,7 +372,7 @@ def run_canaries(w, st):
             rec = {"client": -1, "op_id": tag, "op": op, "kind": "call", "canary": True,
                    "family": inst_family, "recipe": recipe, "mod_dtype": dt, "retry": False}
             if w.profile == "C16":
-                rec["state"] = {k: v.detach().clone() for k, v in mod.state_dict().items()}
+                rec["state"] = tensor_state(mod)
             base, x = make_tensor(spec)
             x.requires_grad_(True)
             oc, val = _run(lambda: mod(x))
@@ -462,8 +462,7 @@ def check_c16(w, rec, st):
             L = fresh(cur)
             oc3, mod3 = _run(lambda: build_direct(L, rec["recipe"], cur))
             if oc3 == "ok":
-                oc3, _ = _run(lambda: mod3.load_state_dict(
-                    {k: v.clone() for k, v in rec["state"].items()}))
+                oc3, _ = _run(lambda: put_tensor_state(mod3, rec["state"]))
             if oc3 == "ok":
                 oc3, val3, _ = ref_apply(L, rec, mod3)
                 st["compared_same_filters"] = st.get("compared_same_filters", 0) + 1
